@@ -78,5 +78,9 @@ FoldFrom(parts, i, acc) ==   \* acc = [st |-> "E" | "ok" | "unrenderable", ids |
 FoldCrit(parts) == FoldFrom(parts, 1, [st |-> "E", ids |-> <<>>])
 \* the intended algebra (identity on both sides): the non-empty parts in order
 FoldIntended(parts) == LET ne == SelectSeq(parts, LAMBDA p : p # "E") IN IF ne = <<>> THEN [st |-> "E", ids |-> <<>>] ELSE [st |-> "ok", ids |-> ne]
+\* The render paths of one statement - str(), repr(), get_sql() without a context, get_sql(the context of its query class) - are one
+\* action: they yield one text (outs = the texts, in that order).
+PathsAgree(outs) == \A i, j \in DOMAIN outs : outs[i] = outs[j]
+
 LeftIdentityOnly(parts) == (FoldCrit(parts).st # "unrenderable") => FoldCrit(parts) = FoldIntended(parts)
 =============================================================================
